@@ -4167,7 +4167,7 @@ impl Compiler {
                     }
 
                     // The variable has received its value, is a jump needed?
-                    if is_last_pattern && !params.is_last_alternative {
+                    if params.has_last_pattern && is_last_pattern && !params.is_last_alternative {
                         // e.g. x, 0, y or x, 1, y if x == y then
                         //            ^ ~~~~~~ We're here, jump to the if condition
                         self.push_op(Jump, &[]);
@@ -4199,7 +4199,7 @@ impl Compiler {
                     }
 
                     // The ignored id has been validated, is a jump needed?
-                    if is_last_pattern && !params.is_last_alternative {
+                    if params.has_last_pattern && is_last_pattern && !params.is_last_alternative {
                         // e.g. x, 0, _ or x, 1, y if foo x then
                         //            ^~~~~~~ We're here, jump to the if condition
                         self.push_op(Jump, &[]);
@@ -4213,7 +4213,9 @@ impl Compiler {
                         MatchArmParameters {
                             match_register: params.match_register,
                             is_last_alternative: params.is_last_alternative,
-                            has_last_pattern: params.has_last_pattern,
+                            // The nested patterns only contain the alternative's last pattern
+                            // when the nested container is itself in the last position.
+                            has_last_pattern: params.has_last_pattern && is_last_pattern,
                             jumps: params.jumps,
                         },
                         Some(pattern_index),
@@ -4234,7 +4236,7 @@ impl Compiler {
                             );
                         }
 
-                        if !params.is_last_alternative {
+                        if params.has_last_pattern && !params.is_last_alternative {
                             // Ellipses match unconditionally in last position,
                             // multi-expression pattern, skip over the remaining alternatives
                             // e.g. (x, 0, rest...) or (x, 1, y) if rest.size() > 0 then
@@ -4277,7 +4279,7 @@ impl Compiler {
                     self.try_unpack_map(map_register, entries, type_hint, jumps, ctx)?;
 
                     // The map pattern been validated, is a jump needed?
-                    if is_last_pattern && !params.is_last_alternative {
+                    if params.has_last_pattern && is_last_pattern && !params.is_last_alternative {
                         // e.g. x, 0, {y: 1} or x, 1, {y: 2} if foo x then
                         //                 ^~~~ We're here, jump to the if condition
                         self.push_op(Jump, &[]);
